@@ -147,9 +147,11 @@ var fullPaths = [][]ElemJ{
 	elems("f"),
 	elems("g", "h", "i"),
 	elems("a", "b", "c"), // collides with a/b
+	elems("intf", "eth0"), // a root with a longer name
+	elems("g", "*"),       // a leaf literally named "*" (stored literally; queries and deletes read it as a glob)
 }
 
-func (g *gen) fullPath() []ElemJ { return fullPaths[g.r.Pick(8, 6, 3, 4, 3, 1)] }
+func (g *gen) fullPath() []ElemJ { return fullPaths[g.r.Pick(8, 6, 3, 4, 3, 1, 3, 1)] }
 
 func (g *gen) prefix(t string, pe []ElemJ) *PathJ {
 	p := &PathJ{Target: t, Elems: pe}
@@ -302,6 +304,14 @@ func randomCase(r *vh.Rand, stream bool, maxOps int) *Case {
 			}
 		}
 	}
+	if stream && r.Chance(1, 3) {
+		// a leaf literally named "*" is stored and deleted again while streams run: its delete
+		// notification ends with "*" but is no whole-target delete
+		t := g.target()
+		c.Ops = append(c.Ops,
+			Op{K: "upd", Now: g.tick(), N: updN(50, pfx(t, "g"), pth("*"), ival(1))},
+			Op{K: "upd", Now: g.tick(), N: delN(60, pfx(t), pth("g"))})
+	}
 	if stream { // at least one subscriber, early
 		t := g.target()
 		if r.Chance(1, 3) {
@@ -318,7 +328,7 @@ func randomCase(r *vh.Rand, stream bool, maxOps int) *Case {
 func ruleText() string {
 	return "corpus cases; every history of 1..D calls (D=3 quick, 4 thorough) over a 9-call alphabet on targets t,u " +
 		"(update t:a/b, update u:a/b, update t:d/e, Reset t, Remove t, Add t, Sync t, Connect u, UpdateMetadata); " +
-		"seeded random histories of 3..12 calls over 2..4 target names sharing the index paths a/b a/c d[k]/e f g/h/i a/b/c (+origin o) " +
+		"seeded random histories of 3..12 calls over 2..4 target names sharing the index paths a/b a/c d[k]/e f g/h/i a/b/c intf/eth0 g/* (a leaf literally named *) (+origin o) " +
 		"(single/multi/atomic/delete/empty notifications, wildcard deletes, metadata written from outside, unknown targets, " +
 		"Reset/Remove/Add/Sync/Connect/ConnectError/UpdateMetadata/UpdateSize, monotone clock, future threshold in {0,2}); " +
 		"the same with 1..4 STREAM subscribers (single target or *) attached at random points, half of them with the initial walk and a " +
